@@ -7,7 +7,7 @@
    shared inputs, the race detector). *)
 From V.lib Require Import Base.
 From Coq Require Import String.
-From V.c20 Require Import C20Model C20Facts C20PkgVars C20SchedProofs C20ApiProofs C20FactsProofs.
+From V.c20 Require Import C20Model C20Facts C20PkgVars C20Reach C20SchedProofs C20ApiProofs C20FactsProofs C20ReachProofs.
 
 (* if every op of goroutine t writes only cells of t and reads only cells of t or shared read-only
    locations, then EVERY interleaving is race-free, gives each goroutine its sequential result and
@@ -47,6 +47,44 @@ Theorem C20_pkg_vars_writers :
               In (u_fn u) allowed_writers.
 Proof. exact pkg_vars_writers. Qed.
 Print Assumptions C20_pkg_vars_writers.
+
+(* call-graph facts regenerated from /repo on every run (C20Reach.v): for every operation of the footprint table,
+   every package-level variable reachable from the library functions behind it is known, is never changed outside
+   init / the registry mutators, and nothing is changed unless the operation is a registry mutator; the Global cells
+   of the hand-written table cover what is reachable; every operation of the table has an entry; the only exported
+   functions from which ANY change of a package-level variable is reachable are mp4.SetBoxDecoder and
+   mp4.RemoveBoxDecoder (and they change the registries only); every reachable package-level value of reference type
+   (map, slice, pointer, chan, interface, struct holding one such as sync.Pool / sync.Once) is one of the audited ones *)
+Theorem C20_api_reach_ok :
+  forallb (reach_entry_ok c20_pkg_vars) c20_api_reach = true /\
+  forallb entry_covered c20_api_reach = true /\
+  forallb (fun k => existsb (fun e => kind_eqb k (r_kind e)) c20_api_reach) all_kinds = true /\
+  forallb xwriter_ok c20_exported_writers = true /\
+  forallb (shared_ok c20_pkg_vars) c20_reachable_shared = true.
+Proof. exact api_reach_ok. Qed.
+Print Assumptions C20_api_reach_ok.
+
+(* the same unfolded, for every operation with all its arguments, every goroutine and every aliasing state: the
+   footprint the table gives the operation contains the cell of every package-level variable the current sources let
+   it read or change; what it reads is only ever changed by init / SetBoxDecoder / RemoveBoxDecoder; operations other
+   than the registry mutators change no package-level variable *)
+Theorem C20_api_reach_covers :
+  forall (a : api) (t : thread) (st : astate) (e : reach_entry),
+    In e c20_api_reach -> r_kind e = kind_of a ->
+    (forall v, In v (r_reads e) ->
+       mem (Global (global_idx v)) (reads (api_op t st a)) = true /\
+       exists p, find_var c20_pkg_vars v = Some p /\
+                 forall u, In u (v_uses p) -> is_write (u_kind u) = true -> In (u_fn u) allowed_writers) /\
+    (forall v, In v (r_writes e) -> mem (Global (global_idx v)) (writes (api_op t st a)) = true) /\
+    (registry_free a = true -> r_writes e = []).
+Proof. exact api_reach_covers. Qed.
+Print Assumptions C20_api_reach_covers.
+
+(* the hypotheses are satisfiable: the entry of DecodeFile exists and reaches the Reader registry *)
+Example C20_api_reach_instance :
+  exists e, In e c20_api_reach /\ r_kind e = kind_of (ADecode (SIn 0) 0) /\
+            vname_in ("mp4", "decoders")%string (r_reads e) = true /\ r_writes e = [].
+Proof. exact api_reach_instance. Qed.
 
 (* the footprint table: Reader-path programs, and SliceReader programs whose in-place operations
    only touch payloads the goroutine owns, satisfy the hypothesis of C20_schedule_independence *)
